@@ -43,6 +43,7 @@ type FnCtx struct {
 	strLits   map[string]Term
 	strLitText map[string]string
 	strAxioms bool
+	strLenDone map[string]bool
 	epochs    int
 	abstracted map[string]bool
 	assumptions map[string]bool
@@ -294,21 +295,41 @@ func (c *FnCtx) term(fr *Frame, st *State, v ssa.Value) Term {
 	return c.scalarOf(sv, want)
 }
 
+// Allocation is a bump allocator: the ghost watermark `alloc` is the next free reference;
+// a reference r is allocated iff 0 < r < alloc. Fresh objects are therefore distinct from
+// every object that existed before, and allocation only grows — without any quantifier.
+func (c *FnCtx) allocInit() Term {
+	t := c.vc.Const("H0$alloc", SInt)
+	if !c.funcRefs["H0$alloc"] {
+		c.funcRefs["H0$alloc"] = true
+		c.vc.Assert(App(SBool, ">=", t, IntLit(1)))
+	}
+	return t
+}
+
+func (c *FnCtx) allocCur(st *State) Term {
+	if t, ok := st.heap["alloc"]; ok {
+		return t
+	}
+	c.heapNames["alloc"] = SInt
+	return c.allocInit()
+}
+
+func (c *FnCtx) isAllocated(st *State, ref Term) Term {
+	return And(App(SBool, "<", IntLit(0), ref), App(SBool, "<", ref, c.allocCur(st)))
+}
+
 // allocRef creates a fresh object reference.
 func (c *FnCtx) allocRef(st *State, prefix string) Term {
+	cur := c.allocCur(st)
 	r := c.vc.Fresh(prefix, SInt)
-	al := c.heapGet(st, "alloc", SArr(SInt, SBool))
-	c.vc.Assert(And(App(SBool, ">", r, IntLit(0)), Not(Select(al, r, SBool))))
-	// also not allocated in the initial state (alloc only grows)
-	al0 := c.vc.Const("H0$alloc", SArr(SInt, SBool))
-	c.vc.Assert(Not(Select(al0, r, SBool)))
-	c.heapSet(st, "alloc", c.vc.Name("al", Store(al, r, TTrue)))
+	c.vc.Assert(Eq(r, cur))
+	c.heapSet(st, "alloc", c.vc.Name("al", App(SInt, "+", cur, IntLit(1))))
 	return r
 }
 
 func (c *FnCtx) assumeAllocated(st *State, ref Term) {
-	al := c.heapGet(st, "alloc", SArr(SInt, SBool))
-	c.vc.Assert(Or(Eq(ref, IntLit(0)), And(App(SBool, ">", ref, IntLit(0)), Select(al, ref, SBool))))
+	c.vc.Assert(Or(Eq(ref, IntLit(0)), c.isAllocated(st, ref)))
 }
 
 // ---------------------------------------------------------------------------------------
